@@ -7,6 +7,7 @@ mod util;
 mod c01;
 mod c02;
 mod c03;
+mod extra;
 mod c04;
 mod nutsrec;
 mod c05;
@@ -52,6 +53,7 @@ fn main() {
         ("c10", "fault") => c10::fault(rest),
         ("c02", "replay") => c02::replay(rest),
         ("c02", "record") => c02::record(rest),
+        ("extra", "unsplit") => extra::unsplit(rest),
         ("c03", "record") => c03::record(rest),
         ("c03", "replay") => c03::replay(rest),
         ("c04", "record") => c04::record(rest),
